@@ -122,3 +122,25 @@ func c06RenegotiateScenarios(tier string) []Scenario {
 	}
 	return out
 }
+
+// a client may disconnect with requests in flight: the server must not touch a Go
+// map from two goroutines without synchronisation (the runtime aborts the process)
+func c06MapMonitorScenarios(tier string) []Scenario {
+	var out []Scenario
+	D := 1
+	if tier == "thorough" {
+		D = 2
+	}
+	i := 0
+	for _, parked := range [][]string{{"clunk"}, {"remove"}, {"walk"}, {"stat"}, {"clunk", "read"}} {
+		for _, cl := range []string{"boundary", "afterwrite"} {
+			i++
+			idx := make([]int, len(parked))
+			for k := range idx {
+				idx[k] = k
+			}
+			out = append(out, vsScenario(c11Spec(c11Params{Prefix: 5, Parked: parked, Release: idx, Close: cl, Maxpend: i % 3, Dotu: i%2 == 0, P: D}, true)))
+		}
+	}
+	return out
+}
